@@ -2,6 +2,7 @@
 import itertools
 from datetime import date, datetime
 
+import re
 from ..bind import Vector, Table, SerifTypeError
 from ..core import call, short
 from .. import models as M
@@ -512,6 +513,16 @@ def run_rename_fault(chk, spec):
 	olds, news = list(spec["olds"]), list(spec["news"])
 	if fault == "new-name-text-raises":
 		news[spec["pos"]] = _BadStr()
+	if fault == "handle-rename-then-bad-label":
+		# a column is renamed through its handle (the table is not told), THEN rename_columns fails on a later column (a str-subclass label whose lower() raises, met
+		# while the accessors are worked out): names as they were - and every column still takes a cell write under the name it carries
+		class LowerRaises(str):
+			def lower(self):
+				raise Boom("no lower")
+		if spec.get("touch_first"):
+			call(dir, t)
+		t.cols()[spec["viewcol"]].name = "q"
+		news[spec["pos"]] = LowerRaises("zz")
 	before_ids = [c._name for c in t.cols()]
 	with warnings.catch_warnings():
 		if fault == "warnings-as-errors-duplicate":
@@ -540,6 +551,11 @@ def run_rename_fault(chk, spec):
 				if not g.ok or g.value is not t.cols()[i]:
 					chk.fail("after a failed rename_columns every column is reachable under its (unchanged) name", f"rename/not-atomic/accessor/{fault}", f"{spec!r}: t[{nm!r}] -> {g!r}")
 					return
+				if nm.isidentifier() and nm == nm.lower() and not hasattr(Table, nm) and not re.search(r"__\d+$", nm):
+					w = call(t.__setitem__, (1, nm), 50)
+					if not w.ok or t.cols()[i]._underlying[1] != 50:
+						chk.fail("after a failed rename_columns every column takes a cell assignment under its (unchanged) name", f"rename/not-atomic/cell-assignment/{fault}", f"{spec!r}: t[1, {nm!r}] = 50 -> {w!r}; columns {[list(c._underlying) for c in t.cols()]!r}")
+						return
 
 def run_shared_refusal(chk, spec):
 	"""two live vectors over ONE caller-supplied tuple: a write to either is refused (AliasError) - and a refused write is a failed assignment like any
@@ -1555,6 +1571,10 @@ def run(chk):
 		for k in range(1, min(3, len(real)) + 1):
 			for pos in range(k):
 				chk.case("rename_fault", {"names": names, "olds": real[:k], "news": [f"n{j}" for j in range(k)], "fault": "new-name-text-raises", "pos": pos}, "rename")
+		if len(names) >= 3 and all(isinstance(nm, str) for nm in names) and len(set(names)) == len(names):
+			for viewcol in range(len(names) - 1):
+				for touch_first in (False, True):
+					chk.case("rename_fault", {"names": names, "olds": [names[-1]], "news": ["z1"], "fault": "handle-rename-then-bad-label", "viewcol": viewcol, "pos": 0, "touch_first": touch_first}, "rename")
 		if len(names) >= 3 and names[0] is not None and names[-1] is not None and names[0] != names[-1]:
 			for k in (1, 2):
 				chk.case("rename_fault", {"names": names, "olds": [names[-1], "z1"][:k], "news": ["z1", "z2"][:k], "fault": "warnings-as-errors-duplicate", "viewcol": 1, "dup": names[0]}, "rename")
